@@ -66,6 +66,36 @@ def plan_async(length):
     return plan
 
 
+def plan_async_tx(length):
+    """MULTI/EXEC on the asyncio front-end, with blocking pops (which must not block) and errors inside the queue"""
+    def plan(s, rng):
+        for c in (1, 2):
+            yield ('open', c)
+        g = Cp.make_gen(s, rng)
+        for _ in range(length):
+            c = rng.choice([1, 2])
+            if s.impl.socks[c]._paused:
+                yield ('aadv', 10.0)
+                continue
+            r = rng.random()
+            if r < 0.2:
+                yield ('cmd', c, [b'multi'])
+            elif r < 0.4:
+                yield ('cmd', c, [b'exec'])
+            elif r < 0.45:
+                yield ('cmd', c, [b'discard'])
+            elif r < 0.6 and s.impl.socks[c]._transaction is not None:
+                yield ('cmd', c, rng.choice([[b'blpop', rng.choice(LKEYS), b'0'], [b'brpop', b'l0', b'l1', b'1'], [b'brpoplpush', b'l0', b'l1', b'0']]))
+            elif r < 0.7:
+                yield ('cmd', c, [b'watch', rng.choice(LKEYS)])
+            else:
+                f = g.command(rng.choice(['rpush', 'lpush', 'lpop', 'set', 'get', 'incr', 'llen', 'mset', 'hset', 'del', 'expire']))
+                if rng.random() < 0.15:
+                    f = g.mutate(f)
+                yield ('cmd', c, f)
+    return plan
+
+
 def run_async_campaign(res, prop, plan, n_hist, seed, t_end, scope=None, observers=()):
     for h in range(n_hist):
         if time.time() > t_end:
@@ -91,14 +121,14 @@ def run_async_campaign(res, prop, plan, n_hist, seed, t_end, scope=None, observe
             res.samples.append({'version': version, 'seed': hseed, 'front_end': 'asyncio', 'events': [corr.ev_json(e) for e in events[:25]]})
         if s.violations:
             v = s.violations[0]
-            res.findings.append({'kind': 'monitor', 'property': v.prop, 'clause': v.clause, 'detail': v.detail, 'version': version, 'seed': hseed,
+            res.add({'kind': 'monitor', 'property': v.prop, 'clause': v.clause, 'detail': v.detail, 'version': version, 'seed': hseed,
                                  'aio': True, 'events': [corr.ev_json(e) for e in events[:v.index + 1]]})
             return
         if div is not None:
             verdict = Cp.judge(div, scope) if div.what in ('reply', 'state', 'crash') else 'violation'
             if verdict == 'out-of-scope':
                 continue
-            res.findings.append({'kind': 'divergence', 'verdict': verdict, 'what': div.what, 'version': version, 'seed': hseed, 'aio': True,
+            res.add({'kind': 'divergence', 'verdict': verdict, 'what': div.what, 'version': version, 'seed': hseed, 'aio': True,
                                  'events': [corr.ev_json(e) for e in events], 'impl': div.impl_side, 'model': div.model_side,
                                  'at': corr.ev_json(div.event)})
             return
